@@ -1,7 +1,7 @@
 """Property id -> check function."""
 import json
 
-from . import props_pool, props_router
+from . import props_pool, props_router, props_plugins
 
 CHECKS = {
     'C01': props_pool.check,
@@ -11,6 +11,7 @@ CHECKS = {
     'C05': props_router.check_c05,
     'C13': props_router.check_c13,
     'C06': props_router.check_c06,
+    'C19': props_plugins.check_c19,
 }
 
 
